@@ -167,7 +167,10 @@ impl Repo {
         git_env(&mut cmd);
         cmd.current_dir(&self.dir).args(args);
         if let Some(d) = date {
-            cmd.env("GIT_AUTHOR_DATE", format!("{d} +0000")).env("GIT_COMMITTER_DATE", format!("{d} +0000"));
+            // the author date is never the commit time zerv must report (amended, rebased, cherry-picked
+            // and applied commits all have an older author date): 463 days and 7 h 6 min 40 s earlier,
+            // written in another zone
+            cmd.env("GIT_AUTHOR_DATE", format!("{} +0530", d.saturating_sub(40_000_000).max(1))).env("GIT_COMMITTER_DATE", format!("{d} +0000"));
         }
         let out = cmd.output().map_err(|e| format!("git spawn: {e}"))?;
         self.log.push(format!("git {}", args.join(" ")));
